@@ -95,6 +95,11 @@ impl SortedWritesTable {
         if candidate_rows.is_empty() {
             return false;
         }
+        // Refresh in row order. The set's iteration order follows the order in which the dirty
+        // ids arrived, and that depends on how many shards the container maps have (a function
+        // of the CPUs available to the process), which would leak into the table's row order.
+        let mut candidate_rows = candidate_rows.into_iter().collect::<Vec<_>>();
+        candidate_rows.sort_unstable();
 
         let mut changed = false;
         let mut mutation_buf = self.new_buffer();
